@@ -464,6 +464,36 @@ def ob_hex_wrappers():
                           "all keys, both compression flags", body, ["Point::to_byte_be -> uninterpreted (to_byte_be_* obligations)", "hex::ToHex::encode_hex -> capturing (third-party)"])
 
 
+def ob_key_forms_search(seed):
+    """counterexample SEARCH (no claim from a pass): every byte / hex form of structured key pairs through the natively built library
+    and back. It exists for changes the symbolic wrappers obligation cannot follow (e.g. a hex form produced through a third-party
+    big-integer formatter): leading zero nibbles / bytes of d and of the coordinates are where such forms break."""
+    def body(stats):
+        import random
+        from core import native
+        rnd = random.Random(seed * 911 + 3)
+        N2_ = 0xFFFFFFFEFFFFFFFFFFFFFFFFFFFFFFFF7203DF6B21C6052B53BBF40939D54123
+        ds = [1, 2, 0xff, 0x100, 1 << 64, (1 << 128) + 5, (1 << 240) + 7, (1 << 247) + 1, (1 << 248) - 1, (1 << 251) + 9, (1 << 252) - 3, N2_ - 2, N2_ - 3]
+        ds += [rnd.getrandbits(256) % (N2_ - 2) + 1 for _ in range(12)] + [rnd.getrandbits(8 * rnd.randint(1, 31)) + 1 for _ in range(12)]
+        for d in ds:
+            got = native("sm2_key_forms", "%064x" % d)
+            stats.n += 1
+            if got is None:
+                raise Inconclusive("replay tool unavailable")
+            if not got.startswith("ok:"):
+                raise Violation("key pair for d = %x: %s" % (d, got), {"d": "%064x" % d, "result": got})
+            f = dict(x.split("=") for x in got[3:].split(","))
+            bad = [k for k, v in f.items() if (k.endswith("_rt") and v != "1")]
+            bad += [k for k, want in (("privhex_len", "64"), ("pubhex0_len", "130"), ("pubhex1_len", "66")) if f.get(k) != want]
+            if bad:
+                raise Violation("key forms of d = %064x do not survive a round trip / have the wrong width: %s (native run of the library)" % (d, ", ".join(bad)),
+                                {"d": "%064x" % d, "result": got})
+        return {"keys": len(ds)}
+    return run_obligation("ce_search_key_forms", ["gm_sm2::key::Sm2PrivateKey::to_hex_string", "gm_sm2::key::Sm2PrivateKey::from_hex_string", "gm_sm2::key::Sm2PublicKey::to_hex_string",
+                                                  "gm_sm2::key::Sm2PublicKey::from_hex_string", "gm_sm2::key::Sm2PublicKey::new", "gm_sm2::key::Sm2PrivateKey::new"],
+                          "counterexample search only: 37 structured / seeded private keys, native run; no claim is derived from a pass", body)
+
+
 def ob_to_byte_be(compress):
     """Point::to_byte_be: tag and coordinates come from the AFFINE form of the point, for any Jacobian representation"""
     def body(stats):
@@ -498,7 +528,8 @@ def ob_to_byte_be(compress):
 
 
 def run(tier, seed, t0):
-    jobs = [ob_pubkey_new_validates, ob_private_key_bytes, ob_pubkey_from_hex, ob_spki_try_from, lambda: ob_to_byte_be(True), lambda: ob_to_byte_be(False), ob_hex_wrappers]
+    build_replay()
+    jobs = [ob_pubkey_new_validates, ob_private_key_bytes, ob_pubkey_from_hex, ob_spki_try_from, lambda: ob_to_byte_be(True), lambda: ob_to_byte_be(False), ob_hex_wrappers, lambda: ob_key_forms_search(seed)]
     import c11
     jobs += [lambda: c11.ob_pow("fp_pow", "SM2_SQRT_EXP", (c11.P2 + 1) // 4, "((p+1)/4)")]
     jobs += [(lambda L=L: ob_from_byte_lengths(L)) for L in ([0, 1, 32, 33, 34, 64, 65, 66] if tier == "quick" else range(0, 70))]
